@@ -7,6 +7,7 @@ import time
 import traceback
 
 from . import bootstrap  # noqa: F401
+from . import ambient
 
 
 def load(cid):
@@ -55,8 +56,12 @@ def run_shard(cid, tier, seed, shard, nshards, out):
         evaluations += 3
     for index in range(shard, total, nshards):
         case = mod.make_case(seed, index, tier)
+        mode = ambient.mode_for(seed, index, nshards) if isinstance(case, dict) else 'plain'
+        if mode != 'plain':
+            case['ambient'] = mode
+        stats['ambient_' + mode] = stats.get('ambient_' + mode, 0) + 1
         try:
-            res = mod.run_case(case)
+            res = ambient.call(mode, mod.run_case, case)
         except BaseException as err:  # noqa: B902 - a crash of the harness itself
             if isinstance(err, KeyboardInterrupt):
                 raise
@@ -101,7 +106,7 @@ def replay(cid, path):
         found, overlap_stats = overlap.check()
         res = {'violations': found, 'stats': overlap_stats}
     else:
-        res = mod.run_case(case)
+        res = ambient.call(case.get('ambient', 'plain'), mod.run_case, case)
     print(json.dumps({'violations': res.get('violations'), 'stats': res.get('stats')},
                      indent=1, default=repr))
     if res.get('violations'):
